@@ -22,4 +22,18 @@ def depthCert (gs : GlyphSet) : List (String × Nat) :=
         1 + (g.comps.map (fun k => match gs.get? k.base with | some b => depth fuel b | none => 0)).foldl max 0
   gs.map (fun e => (e.1, depth (gs.length + 1) e.2))
 
+/-- CLOSED: every component's base is a key of the set (the decomposing pen, `_flattenComponent` and the transformations
+    filter raise on a missing base; `getMaxComponentDepth` and anchor propagation skip it) -/
+def closedGS (gs : GlyphSet) : Bool :=
+  gs.all (fun e => e.2.comps.all (fun k => (gs.get? k.base).isSome))
+
+/-- a Python dict has no duplicate keys -/
+def nodupKeys : List String → Bool
+  | [] => true
+  | n :: ns => !ns.contains n && nodupKeys ns
+
+/-- the hypotheses of the totality theorems (`Props/Total.lean`, `wfCert_sound`): the render certificate, closedness,
+    distinct keys -/
+def wfCert (gs : GlyphSet) : Bool := goodCert gs (depthCert gs) && closedGS gs && nodupKeys gs.names
+
 end Ufo2ft
